@@ -138,6 +138,14 @@ class EdgeRun(object):
                 SmtpSession.__init__(self, *a, **k)
                 run.session = self
 
+            def XCUST(self, reply, arg, server):
+                # an application-defined command: the application accepts it by rewriting the reply it is handed
+                run.note('XCUST', arg.decode('latin-1') if arg else None)
+                reply.code = '250'
+                reply.message = '2.0.0 custom command done'
+
+        from engine.vloop import snapshot_reply_constants, restore_reply_constants
+        snap = snapshot_reply_constants()
         saved = (edge_smtp.Server, edge_smtp.PtrLookup)
         edge_smtp.Server = CapServer
         edge_smtp.PtrLookup = FakePtrLookup
@@ -155,6 +163,8 @@ class EdgeRun(object):
                 self.end = 'exception:' + type(e).__name__
         finally:
             edge_smtp.Server, edge_smtp.PtrLookup = saved
+            # pre-defined replies are shared by every session of the process: a session must leave them as they were
+            self.changed_constants = restore_reply_constants(snap)
         return self
 
     # ---- per-event views
